@@ -80,6 +80,26 @@ def _make_table_cached(key):
     df.index = make_index(spec.get("index", "range"), n, rs)
     if spec.get("index_name"):
         df.index.name = spec["index_name"]
+    if spec.get("flip"):
+        # sibling variant: exactly one cell differs
+        r, c = spec["flip"]
+        col = df.columns.get_loc(c)
+        v = df.iloc[r % n, col]
+        if isinstance(v, (bool, np.bool_)):
+            nv = not v
+        elif isinstance(v, (int, float, np.integer, np.floating)):
+            nv = (0 if v != v else v) + 1
+        elif isinstance(v, str):
+            nv = v + "x" if df[c].dtype != "category" else v
+        else:
+            nv = v
+        if df[c].dtype != "category":
+            df.iloc[r % n, col] = nv
+    if spec.get("index_shift"):
+        try:
+            df.index = df.index + spec["index_shift"]
+        except Exception:
+            pass
     return df
 
 
@@ -279,6 +299,10 @@ def build_op(op, pool, tables, use_knobs=True):
         pdf = make_table(tables[op["table"]])
         cols = op["columns"]
         arr = pdf[cols].to_numpy(dtype="float64")
+        if op.get("contiguous", True):
+            # a strided view is tokenized by layout and changes its name when pickled
+            # (known finding KF-C16-fromarray-strided, probed separately)
+            arr = np.array(arr, order="C", copy=True)
         return dx.from_array(arr, chunksize=op["chunksize"], columns=cols)
 
     src = op.get("src")
@@ -337,6 +361,8 @@ def build_op(op, pool, tables, use_knobs=True):
             kw["upsample"] = up
         return x.sort_values(op["by"], ascending=op.get("ascending", True), **kw)
     if o == "repartition":
+        if op.get("partition_size"):
+            return x.repartition(partition_size=op["partition_size"])
         if op.get("divisions"):
             return x.repartition(divisions=[_lit(d) for d in op["divisions"]], force=op.get("force", False))
         return x.repartition(npartitions=op["npartitions"])
@@ -535,7 +561,7 @@ def build_expr_binop(fn, a, b):
     raise ValueError(fn)
 
 
-def build(recipe, use_knobs=True, upto=None, override=None, only=None):
+def build(recipe, use_knobs=True, upto=None, override=None, only=None, order="forward"):
     """Build the whole recipe; returns {op id: collection}.
 
     override: {op id: collection} substitutes a member (C17 cut points).
@@ -545,10 +571,21 @@ def build(recipe, use_knobs=True, upto=None, override=None, only=None):
     need = None
     if only is not None:
         need = cone(recipe, only)
-    for op in recipe["ops"]:
+    ops = list(recipe["ops"])
+    if order == "reverse":
+        # another valid construction order: always build the highest-numbered op whose sources exist
+        todo = {op["id"]: op for op in ops if (need is None or op["id"] in need) and (upto is None or op["id"] <= upto)}
+        ops = []
+        done = set()
+        while todo:
+            avail = [i for i, op in todo.items() if all(s in done for s in op_srcs(op))]
+            i = max(avail)
+            ops.append(todo.pop(i))
+            done.add(i)
+    for op in ops:
         i = op["id"]
         if upto is not None and i > upto:
-            break
+            continue
         if need is not None and i not in need:
             continue
         if override and i in override:
@@ -733,6 +770,7 @@ class Generator:
         self.reject_reasons = {}
         self.knob_prob = knob_prob
         self.pool_knobs = pool_knobs
+        self.allow_partition_size = False
 
     # -- helpers -------------------------------------------------------------
     def _knobs(self, names):
@@ -1004,6 +1042,9 @@ class Generator:
         if not m:
             return None
         n = self.rng.choice([1, 2, 3, 5, 8, self.max_parts])
+        if self.allow_partition_size and m.kind == "frame" and self.rng.random() < 0.4:
+            return self.try_add({"op": "repartition", "src": m.id, "partition_size": self.rng.choice(["200B", "500B", "1kiB", "4kiB"])},
+                                m.order, m.labels, m.root, m.index_kind)
         return self.try_add({"op": "repartition", "src": m.id, "npartitions": n}, m.order, m.labels, m.root, m.index_kind)
 
     def g_shuffle(self):
